@@ -401,7 +401,7 @@ func famMeta() family {
 	}}
 }
 
-// border-image family: deviation level <= 3 inside the group (quick), full product (thorough).
+// border-image family: deviation level <= 4 inside the group (quick), full product (thorough).
 func famBorderImage(thorough bool) []family {
 	slots := slotsBI()
 	if thorough {
@@ -432,11 +432,54 @@ func famBorderImage(thorough bool) []family {
 			return s, dev
 		}}
 	}
+	n4, level4 := levelK(slots, 4)
 	return []family{
 		mk("I0", 1, 0, func(int64) []pick { return nil }),
 		mk("I1", l.n1, 1, l.level1),
 		mk("I2", l.n2, 2, l.level2),
 		mk("I3", l.n3, 3, l.level3),
+		mk("I4", n4, 4, level4),
+	}
+}
+
+// levelK enumerates the cases with exactly k deviations: every k-subset of the slots (in
+// lexicographic order) times the product of their menus.
+func levelK(slots []slot, k int) (int64, func(int64) []pick) {
+	type blk struct {
+		s     []int
+		start int64
+		size  int64
+	}
+	var blks []blk
+	var tot int64
+	var rec func(from int, cur []int)
+	rec = func(from int, cur []int) {
+		if len(cur) == k {
+			sz := int64(1)
+			for _, i := range cur {
+				sz *= int64(len(slots[i].choices))
+			}
+			if sz > 0 {
+				blks = append(blks, blk{append([]int(nil), cur...), tot, sz})
+				tot += sz
+			}
+			return
+		}
+		for i := from; i < len(slots); i++ {
+			rec(i+1, append(cur, i))
+		}
+	}
+	rec(0, nil)
+	return tot, func(i int64) []pick {
+		b := blks[sort.Search(len(blks), func(j int) bool { return blks[j].start+blks[j].size > i })]
+		i -= b.start
+		ps := make([]pick, k)
+		for j := k - 1; j >= 0; j-- {
+			n := int64(len(slots[b.s[j]].choices))
+			ps[j] = pick{b.s[j], int(i % n)}
+			i /= n
+		}
+		return ps
 	}
 }
 
@@ -487,7 +530,7 @@ func (c *check) Init(tier string, seed int64) engine.Space {
 	}
 	return engine.Space{
 		Units: c.total, Chunk: 48, Level: "model_checking",
-		Rule:   "one unit = one document: G0..G2 (G3 thorough) = every document with <= 2 (3: core menus) deviations from the skeleton over the listed slots; B = every bookmark-level sequence x page pattern x variant; L = every assignment of ids {none,a,b} to 1..4 elements x every placement of <= 2 forced page breaks x at most one special box kind; M = full product of the title/keywords/other-meta menus; I = border-image group (source x slice x repeat x width x outset x border widths x box x zoom): every document with <= 3 deviations inside the group (thorough: the full product). A case is non-trivial when the render completed and the document produced at least one anchor, link, bookmark or metadata value that the oracle compared.",
+		Rule:   "one unit = one document: G0..G2 (G3 thorough) = every document with <= 2 (3: core menus) deviations from the skeleton over the listed slots; B = every bookmark-level sequence x page pattern x variant; L = every assignment of ids {none,a,b} to 1..4 elements x every placement of <= 2 forced page breaks x at most one special box kind; M = full product of the title/keywords/other-meta menus; I = border-image group (source x slice x repeat x width x outset x border widths x box x zoom): every document with <= 4 deviations inside the group (thorough: the full product). A case is non-trivial when the render completed and the document produced at least one anchor, link, bookmark or metadata value that the oracle compared.",
 		Bounds: c.bounds,
 		Assumptions: []string{
 			"Paint(0) (the 'end path without painting' operation) on an empty path is not counted as painting",
